@@ -10,9 +10,11 @@ import WpModel.Drive.TableCellWidth
 import WpModel.Drive.TableBorderDraw
 import WpModel.Drive.TableSplitBorders
 import WpModel.Drive.TableGroupOrder
+import WpModel.Drive.TableColumns
 
 def main : IO Unit := Wp.Drive.runDriver
   [Wp.Drive.Table.handle, Wp.Drive.Borders.handle, Wp.Drive.TableRows.handle, Wp.Drive.TablePages.handle,
    Wp.Drive.TablePref.handle, Wp.Drive.RowHeights.handle, Wp.Drive.TableCellSplit.handle,
    Wp.Drive.TableCellWidth.handle, Wp.Drive.BorderDraw.handle,
-   Wp.Drive.SplitBorders.handle, Wp.Drive.TableGroupOrder.handle]
+   Wp.Drive.SplitBorders.handle, Wp.Drive.TableGroupOrder.handle,
+   Wp.Drive.TableColumns.handle]
